@@ -736,6 +736,8 @@ def gen_matrix_case(rng):
 
 # ------------------------------------------------------------------------------------------------ relation: rebin_histogram
 def make_hist(h):
+    if not h:
+        return pd.Series([], index=pd.IntervalIndex.from_breaks(np.array([], dtype=float)), dtype=float)
     return pd.Series([float(v) for _, _, v in h], index=pd.IntervalIndex.from_tuples([(float(l), float(r)) for l, r, _ in h]), dtype=float)
 
 
@@ -765,7 +767,7 @@ def rel_rebin(case):
         out = run_rebin(h, n)
         cls = [(F(i.left), F(i.right)) for i in out.index]
         vals = [float(v) for v in out.values]
-        if len(cls) != n:
+        if len(cls) != (n if h else 0):
             fails.append(('rebin to n classes does not give n classes', (n, len(cls))))
         elif not close(sum(vals), float(total)):
             fails.append(('rebin_histogram to n classes does not conserve the total', (float(total), sum(vals))))
@@ -774,7 +776,7 @@ def rel_rebin(case):
         terms.append('check_rebin_int %s %s %s %s' % (hist_lit(h), nlit(n), ivls(cls), ql(vals)))
         return fails, terms[0], True, info
     b = [(F(l), F(r)) for l, r in tgt['ivs']]
-    covers = bool(b) and min(l for l, _ in b) <= min(i[0] for i, _ in hx) and max(i[1] for i, _ in hx) <= max(r for _, r in b)
+    covers = not hx or (bool(b) and min(l for l, _ in b) <= min(i[0] for i, _ in hx) and max(i[1] for i, _ in hx) <= max(r for _, r in b))
     spec_ok = o_binning_ok(b)
     info = {'binning_len': len(b), 'spec_ok': spec_ok, 'covers': covers}
     try:
@@ -805,7 +807,7 @@ def rel_rebin(case):
     elif not all(close(a, e) for a, e in zip(vals, exp)):
         fails.append(('rebin_histogram: class contents are not the overlap-proportional shares', (vals, [float(x) for x in exp])))
     terms.append('check_rebin %s %s (Some %s)' % (hist_lit(h), ivls(b), ql(vals)))
-    if case.get('nan_default'):
+    if case.get('nan_default') and hx:          # (an empty histogram gives zeros also with nan_default: the code's own special case)
         outn = run_rebin(h, make_binning(tgt['ivs']), nan_default=True)
         for t, v, e in zip(b, outn.values, exp):
             empty = not any(o_overlaps(i, t) for i, _ in hx)
@@ -839,6 +841,8 @@ def gen_hist(rng, gappy=0.25):
 def gen_rebin_case(rng):
     h = gen_hist(rng)
     lo, hi = min(l for l, _, _ in h), max(r for _, r, _ in h)
+    if rng.random() < 0.04:
+        h = []                      # an empty histogram re-bins to zeros
     r = rng.random()
     if r < 0.12:
         return {'rel': 'rebin', 'hist': h, 'target': {'kind': 'count', 'n': rng.choice([1, 2, 3, 4, 5, 8])}}
